@@ -99,7 +99,7 @@ Proof.
   pose proof (sn_shape _ _ _ St) as Sh.
   (* the common path for text values *)
   assert (Str : forall a s, nth_error (cx_args c) (o_arg o) = Some a -> o_val o = VS s ->
-            takes_value a = true -> (a_kind a = KInt -> intlike s = true) ->
+            takes_value a = true -> castable a s = true ->
             vals_ok (os ++ [o]) (run_one args o)).
   { intros a s Na Vo Tv Hint.
     destruct (nth_error_map_inv r_spec args (o_arg o) a) as [r [Nr Sr]]; [rewrite Sh; exact Na|].
@@ -119,7 +119,7 @@ Proof.
     apply andb_true_iff in Os. destruct Os as [_ Os].
     destruct (o_form o); try discriminate. destruct (o_val o) as [b|n|s|] eqn:Vo; try discriminate.
     rewrite !andb_true_iff in Os. destruct Os as [[[[[[[Tv _] _] _] _] _] Hint] _].
-    apply (Str a s eq_refl eq_refl Tv). intros K. now rewrite K in Hint.
+    apply (Str a s eq_refl eq_refl Tv). exact Hint.
   - (* counter *)
     unfold occ_counter in Os. destruct (nth_error (cx_args c) (o_arg o)) as [a|] eqn:Na; [|discriminate].
     rewrite !andb_true_iff in Os. destruct Os as [[[_ Hinc] _] Os].
@@ -138,12 +138,12 @@ Proof.
     unfold occ_positional in Op. destruct (nth_error (cx_args c) (o_arg o)) as [a|] eqn:Na; [|discriminate].
     destruct (o_form o); try discriminate. destruct (o_val o) as [b|n|s|] eqn:Vo; try discriminate.
     rewrite !andb_true_iff in Op. destruct Op as [[[_ Tv] _] Hint].
-    apply (Str a s eq_refl eq_refl Tv). intros K. now rewrite K in Hint.
+    apply (Str a s eq_refl eq_refl Tv). exact Hint.
   - (* optional flag with its value *)
     unfold occ_optval in Os. destruct (nth_error (cx_args c) (o_arg o)) as [a|] eqn:Na; [|discriminate].
     apply andb_true_iff in Os. destruct Os as [_ Os].
     destruct (o_form o); try discriminate; destruct (o_val o) as [b|n|s|] eqn:Vo; try discriminate;
       rewrite !andb_true_iff in Os; destruct Os as [[[[[[[Tv _] _] _] _] Hint] _] _];
-      apply (Str a s eq_refl eq_refl Tv); intros K; now rewrite K in Hint.
+      apply (Str a s eq_refl eq_refl Tv); exact Hint.
 Qed.
 End WideVals.
